@@ -25,7 +25,10 @@ ASSUMPTIONS = ["an exception whose traceback runs the body of a built-in is outs
                "termination is restated as: at most 5000 + 3000*len(text) activations of interpreter code AND at most 15 s of processor time (ITIMER_VIRTUAL, not wall clock) per text; a 90 s wall-clock watchdog is inconclusive"]
 
 _S = {}
-ALPHABET = list("abcxyzRETURN_019 \"'()[]{},:=;\\.-#\n\t") + ["é", "日", "①", "٣", "²", "true", "nop", "query_bucket", "RETURN"]
+ALPHABET = list("abcxyzRETURN_019 \"'()[]{},:=;\\.-#\n\t") + ["é", "日", "①", "٣", "²", "true", "nop", "query_bucket", "RETURN"] + [
+    # code points without a Unicode name (controls, a lone surrogate, private use, a noncharacter, unassigned) and invisible or
+    # look-alike ones, as pasted text carries them
+    "\x00", "\x01", "\x1b", "\x7f", "\x9b", "\ud800", "\ue000", "\uffff", "\u0378", "\u200b", "\u201c", "\u2028", "\ufeff", "\U0001f600"]
 
 
 class Watchdog(BaseException):
